@@ -931,6 +931,23 @@ class CodeGenerator(NodeVisitor):
                 self.writeline(f"{ref} = context.super({name!r}, block_{name})")
             block_frame.symbols.analyze_node(block)
             block_frame.block = name
+            if block.required:
+                # A required block must be overridden by a more derived
+                # template. The check at the call site in visit_Block only
+                # runs in the template that declares the block, and only if
+                # that template ends up as the root of the inheritance
+                # chain. Refuse to render the declaration itself when it is
+                # the most derived definition, wherever it was declared. It
+                # can still be reached through super() from an override.
+                self.writeline(
+                    f"if context.blocks[{name!r}][0] is block_{name}:", block
+                )
+                self.indent()
+                self.writeline(
+                    f'raise TemplateRuntimeError("Required block {name!r} not found")',
+                    block,
+                )
+                self.outdent()
             self.writeline("_block_vars = {}")
             self.enter_frame(block_frame)
             self.pull_dependencies(block.body)
